@@ -293,6 +293,26 @@ impl DataInterchange for Json {
     }
 }
 
+impl Json {
+    /// The byte string that is signed (and hashed into key ids) for `raw_data`.
+    ///
+    /// This is the canonical JSON of the in-toto reference implementations
+    /// (OLPC canonical JSON as produced by securesystemslib): identical to
+    /// [`Json::canonicalize`] except that strings are written as raw UTF-8
+    /// with only `\` and `"` escaped, so control characters such as line
+    /// feeds and tabs are not turned into JSON escape sequences.
+    pub fn canonicalize_for_signing(
+        raw_data: &serde_json::Value,
+    ) -> Result<Vec<u8>> {
+        let converted = convert(raw_data).map_err(Error::Opaque)?;
+        let mut buf = Vec::new();
+        converted
+            .write_styled(&mut buf, StringStyle::RawUtf8)
+            .map_err(Error::Opaque)?;
+        Ok(buf)
+    }
+}
+
 fn canonicalize(
     jsn: &serde_json::Value,
 ) -> std::result::Result<Vec<u8>, String> {
@@ -300,6 +320,42 @@ fn canonicalize(
     let mut buf = Vec::new();
     let _ = converted.write(&mut buf); // Vec<u8> impl always succeeds (or panics).
     Ok(buf)
+}
+
+/// How strings are written by [`Value::write`].
+#[derive(Clone, Copy)]
+enum StringStyle {
+    /// JSON escaping (the output is valid JSON).
+    JsonEscaped,
+    /// Raw UTF-8, only `\` and `"` are escaped (the signed form).
+    RawUtf8,
+}
+
+fn write_string(
+    s: &str,
+    buf: &mut Vec<u8>,
+    style: StringStyle,
+) -> std::result::Result<(), String> {
+    match style {
+        StringStyle::JsonEscaped => {
+            // this mess is abusing serde_json to get json escaping
+            let s = serde_json::Value::String(s.to_owned());
+            let s =
+                serde_json::to_string(&s).map_err(|e| format!("{:?}", e))?;
+            buf.extend(s.as_bytes());
+        }
+        StringStyle::RawUtf8 => {
+            buf.push(b'"');
+            for b in s.bytes() {
+                if b == b'\\' || b == b'"' {
+                    buf.push(b'\\');
+                }
+                buf.push(b);
+            }
+            buf.push(b'"');
+        }
+    }
+    Ok(())
 }
 
 enum Value {
@@ -313,6 +369,14 @@ enum Value {
 
 impl Value {
     fn write(&self, buf: &mut Vec<u8>) -> std::result::Result<(), String> {
+        self.write_styled(buf, StringStyle::JsonEscaped)
+    }
+
+    fn write_styled(
+        &self,
+        buf: &mut Vec<u8>,
+        style: StringStyle,
+    ) -> std::result::Result<(), String> {
         match *self {
             Value::Null => {
                 buf.extend(b"null");
@@ -338,14 +402,7 @@ impl Value {
                 buf.extend(txt.as_bytes());
                 Ok(())
             }
-            Value::String(ref s) => {
-                // this mess is abusing serde_json to get json escaping
-                let s = serde_json::Value::String(s.clone());
-                let s = serde_json::to_string(&s)
-                    .map_err(|e| format!("{:?}", e))?;
-                buf.extend(s.as_bytes());
-                Ok(())
-            }
+            Value::String(ref s) => write_string(s, buf, style),
             Value::Array(ref arr) => {
                 buf.push(b'[');
                 let mut first = true;
@@ -353,7 +410,7 @@ impl Value {
                     if !first {
                         buf.push(b',');
                     }
-                    a.write(buf)?;
+                    a.write_styled(buf, style)?;
                     first = false;
                 }
                 buf.push(b']');
@@ -368,14 +425,10 @@ impl Value {
                     }
                     first = false;
 
-                    // this mess is abusing serde_json to get json escaping
-                    let k = serde_json::Value::String(k.clone());
-                    let k = serde_json::to_string(&k)
-                        .map_err(|e| format!("{:?}", e))?;
-                    buf.extend(k.as_bytes());
+                    write_string(k, buf, style)?;
 
                     buf.push(b':');
-                    v.write(buf)?;
+                    v.write_styled(buf, style)?;
                 }
                 buf.push(b'}');
                 Ok(())
